@@ -481,3 +481,10 @@ pub fn t_chunks_copy(a: u64, b: u64, c: u64) -> u64 {
     four.copy_from_slice(&data[..(small(b) as usize % 6)]);
     acc * 1000 + ex * 10 + four[3] as u64
 }
+
+pub fn t_hashset_eq(a: u64, b: u64, c: u64) -> u64 {
+    let x: HashSet<u64> = [small(a), small(b)].into_iter().collect();
+    let y: HashSet<u64> = [small(b), small(c)].into_iter().collect();
+    let z: HashSet<u64> = [small(c), small(a), small(b)].into_iter().collect();
+    (x == y) as u64 * 100 + (x != z) as u64 * 10 + (y == z) as u64
+}
